@@ -109,9 +109,11 @@ fn drive<F: TagFrame, S: Signal<Frame = F>>(
     src: &mut Source,
     obs: &mut Observer,
 ) -> Result<(), Violation> {
-    let cap = src.cfg("cap", 1, 8, |r| match r.below(5) {
-        0 => 1,
-        1 => 2,
+    let cap = src.cfg("cap", 1, 130, |r| match r.below(20) {
+        0..=3 => 1,
+        4..=7 => 2,
+        8 => *r.pick(&[15i64, 16, 17, 31, 32, 33, 64, 65, 100, 128]),
+        9 => r.range(9, 130),
         _ => r.range(1, 8),
     }) as usize;
     let start = src.cfg("rb_start", 0, cap as i64 - 1, |r| if r.bool() { 0 } else { r.range(0, cap as i64 - 1) }) as usize;
@@ -120,7 +122,7 @@ fn drive<F: TagFrame, S: Signal<Frame = F>>(
         2 => cap as i64,
         _ => r.range(0, cap as i64),
     }) as usize;
-    let steps = src.cfg("steps", 0, 120, |r| r.range(0, 120)) as usize;
+    let steps = src.cfg("steps", 0, 3000, |r| if r.chance(1, 40) { r.range(500, 3000) } else { r.range(0, 120) }) as usize;
     let drain_at_end = src.cfg("drain", 0, 1, |r| (end.is_some() && r.chance(2, 3)) as i64) == 1 && end.is_some();
     let w = [
         src.cfg("w_next", 0, 10, |r| r.range(0, 10)) as u32 + 1,
@@ -267,9 +269,10 @@ fn drive<F: TagFrame, S: Signal<Frame = F>>(
 
 fn with_source<F: TagFrame>(src: &mut Source, obs: &mut Observer) -> Result<(), Violation> {
     let kind = src.cfg("source", 0, 1, |r| r.range(0, 1));
-    let end = src.cfg("src_len", -1, 60, |r| match r.below(6) {
-        0 => -1,
-        1 => r.range(0, 3),
+    let end = src.cfg("src_len", -1, 5000, |r| match r.below(12) {
+        0 | 1 => -1,
+        2 | 3 => r.range(0, 3),
+        4 => r.range(100, 5000),
         _ => r.range(0, 60),
     });
     if kind == 0 || end < 0 {
@@ -331,7 +334,7 @@ impl Scenario for BufferedScenario {
     }
     fn runs(&self, tier: &str) -> u64 {
         if tier == "quick" {
-            500_000
+            1_200_000
         } else {
             50_000_000
         }
